@@ -220,7 +220,7 @@ var stratumValues = []int64{0, 16, 15, 1, 255, 17, 128, 2}
 func genRecipe(r *lib.Rng, nts bool) recipe {
 	kinds := []int{1, 2, 2, 3, 3, 4, 4, 5, 5, 5, 6, 6, 7, 8, 9, 21}
 	if nts {
-		kinds = append(kinds, 10, 11, 11, 11, 12, 12, 13, 13, 13, 14, 15, 16, 16, 17, 18, 19, 19, 20, 22, 22, 23, 23, 24)
+		kinds = append(kinds, 10, 11, 11, 11, 12, 12, 13, 13, 13, 14, 15, 16, 16, 17, 18, 19, 19, 20, 22, 22, 23, 23, 24, 26, 26, 26)
 	}
 	k := kinds[r.Intn(len(kinds))]
 	rc := recipe{kind: k, p2: int64(r.Intn(1 << 16))}
@@ -263,6 +263,8 @@ func genRecipe(r *lib.Rng, nts bool) recipe {
 		rc.p1 = int64(r.Intn(3))
 	case 23:
 		rc.p1 = int64(r.Intn(4))
+	case 26:
+		rc.p1 = int64(r.Intn(8))
 	}
 	return rc
 }
@@ -830,6 +832,10 @@ func main() {
 				runBadLocal(w)
 				continue
 			}
+			if l[0] == "client.ctxdone" {
+				runCtxDone(w, 1)
+				continue
+			}
 			if h, ok := histOfArgs(l[2]); ok {
 				h.auth = strings.HasSuffix(l[0], "auth")
 				h.late = strings.Contains(l[0], ".late")
@@ -936,11 +942,19 @@ func main() {
 		w.runHistSCION(h, scionKind(h))
 	}
 	runBadLocal(w)
+	var wg6 sync.WaitGroup
 	if w6 := newWorker6(a.Seed); w6 != nil {
-		for j := 0; j < nlate; j++ {
-			h := genHist(r, false, false)
-			h.v6 = true
-			w6.runHist(h)
-		}
+		wg6.Add(1)
+		go func() {
+			defer wg6.Done()
+			r6 := lib.NewRng(a.Seed*7777 + 200)
+			for j := 0; j < nlate; j++ {
+				h := genHist(r6, false, false)
+				h.v6 = true
+				w6.runHist(h)
+			}
+		}()
 	}
+	runCtxDone(w, 2)
+	wg6.Wait()
 }
